@@ -36,6 +36,8 @@ class FloatSpec (F : Type) extends FloatLike F where
   -- ---------------------------------------------------------------- rounding
   rnd_mono : ∀ {x y : ℝ}, x ≤ y → rnd x ≤ rnd y
   rnd_rep : ∀ {x : ℝ}, Rep x → rnd x = x
+  /-- round-to-nearest-even is symmetric about zero -/
+  rnd_neg : ∀ (x : ℝ), rnd (-x) = -rnd x
   rep_rnd : ∀ {x : ℝ}, InRange x → Rep (rnd x)
   /-- relative error 2⁻⁵³ plus the subnormal absolute error 2⁻¹⁰⁷⁵ -/
   rnd_err : ∀ (x : ℝ), |rnd x - x| ≤ |x| / 2 ^ 53 + 1 / 2 ^ 1075
